@@ -23,12 +23,14 @@ import diaglib as D
 import fa_run
 import res_run
 import imp_run
+import root_run
+from root_lib import PROJECT as R_PROJECT
 import gen_modules as G
 import imp_lib as I
 
 PROP = "C07"
 PROOF_FILES = ["proofs/ImpProofs.v", "proofs/ResFuel.v", "proofs/C01Complete.v", "proofs/C07Proofs.v", "props/C07.v"]
-MODEL_FILES = sorted(set(fa_run.MODEL_FILES + res_run.MODEL_FILES + imp_run.MODEL_FILES + ["model/Annot.v"]))
+MODEL_FILES = sorted(set(fa_run.MODEL_FILES + res_run.MODEL_FILES + imp_run.MODEL_FILES + root_run.MODEL_FILES + ["model/Annot.v"]))
 _ANSI = re.compile(r"\x1b\[[0-9;]*m")
 
 # finding classes: construct labels -> (KF id, exception classes)
@@ -136,6 +138,15 @@ def main(tier: str) -> int:
             gen_raised += 1
             fa_new.append({"why": f"the multi-module pipeline ended in an escaping {r}", "project": m["project"], "files": m["files"], "stderr": m["multi"].get("stderr")})
 
+    # (a'') the root-context suite (shared with C08 / C05): compile_root_context on generated modules, top level and inside packages
+    rootsuite = root_run.run(tier)
+    root_raised = 0
+    for code, m in rootsuite["cases"]:
+        if m["outcome"] == "raise":
+            root_raised += 1
+            fa_new.append({"why": f"compile_root_context ended in an escaping {m.get('raised')}", "module": m["source"], "written_to": m["place"],
+                           "project_files": R_PROJECT, "stderr": m["stderr"]})
+
     # (b) module shapes as subprocesses
     labels = [l for l, _ in G.CONSTRUCTS]
     src_of = dict(G.CONSTRUCTS)
@@ -147,7 +158,8 @@ def main(tier: str) -> int:
                                                      "target.py": "from lib_under_test import entry\n\ndef top(a):\n    return entry(a.x)\n"}, None, ["target.py"]))
     for name, files, argv, sub in FIXED_PROJECTS:
         programs.append((f"project: {name}", [name], files, sub, argv))
-    benign = [l for l in labels if l not in KF_BY_LABEL and l not in ("import missing", "from missing import", "relative from import in top-level module",
+    benign = [l for l in labels if l not in KF_BY_LABEL and l not in ("import missing", "from missing import", "relative from import in top-level module", "relative star import of the own package",
+                                                                      "relative star import of a sibling", "relative from import of a missing sibling",
                                                                       "global and nonlocal", "lambda tuple assignment", "lambda chained assignment", "lambda augmented",
                                                                       "module level expressions", "import __future__")]
     n_combo = 12 if tier == "quick" else 300
@@ -222,7 +234,7 @@ def main(tier: str) -> int:
                 f"{len(G.CONSTRUCTS)} labelled module-level constructs (imports of every form incl. star / relative / missing / stdlib / extension modules, definitions with every decorator and parameter shape, definitions inside every compound statement, lambdas in every assignment shape, "
                 "classes: enum / NamedTuple / dataclass / nested / generic / body statements, every assignment target shape, match / try* / with / type aliases, non-ASCII identifiers, empty module) each alone, on the imported side, in random combinations and all benign ones together, "
                 f"x {len(G.OPTION_SETS)} option sets (-f 0/2, --strict, --threshold, -w, -o ir/stats/cacheable/silent, -H -T, -x, -F, -C, -C -r); fixed projects: re-export cycle, import cycle, one file under two module names, stdlib extension module at -f 3, deep nesting, 300-link attribute chain, 120-function call chain",
-        "function_outcomes": dict(fa_outcomes), "result_generation_programs": len(res["cases"]) + len(imp["cases"]), "result_generation_raises": gen_raised, "raises_in_unmodelled_functions_classified_by_exception_class_only": unmodelled_by_class[0], "subprocess_runs": len(jobs), "subprocess_verdicts": dict(verdicts),
+        "function_outcomes": dict(fa_outcomes), "result_generation_programs": len(res["cases"]) + len(imp["cases"]), "result_generation_raises": gen_raised, "root_context_modules": len(rootsuite["cases"]), "root_context_raises": root_raised, "raises_in_unmodelled_functions_classified_by_exception_class_only": unmodelled_by_class[0], "subprocess_runs": len(jobs), "subprocess_verdicts": dict(verdicts),
         "traces_validated_against_impl": len(fa["cases"]), "disagreements_checked": sum(1 for c, m in fa["cases"] if (c & 1) and not (c & 64)),
         "crashes_new": len(fa_new) + len(new), "crashes_known_class": {k: len(v) for k, v in known.items()},
         "print_assumptions": pa, "broken_obligation_files": broken, "samples": [new[0] if new else (next(iter(known.values()))[0] if known else None)]},
